@@ -162,7 +162,7 @@ impl ResourceTransaction {
 //@@ end
 
 //@@ fn file=fe2o3-amqp/src/transaction/manager.rs impl=`impl ResourceTransaction` name=on_incoming_post
-//@@ subst `transfer.delivery_id.map(|delivery_id| {` => `transfer.delivery_id.map(|delivery_id: u32| -> (o: Disposition) {` rule=R5
+//@@ subst `transfer.delivery_id.map(|delivery_id| {` => `transfer.delivery_id.map(|delivery_id: u32| -> (o: Disposition) {` rule=optional-R5
 //@@ spec
     ensures
         final(self).frames@ == old(self).frames@.push(TxnWorkFrame::Post { transfer, payload }),   // [C18.post.buffered] a transactional post is appended to the transaction's work, unchanged, after everything posted before
@@ -201,8 +201,8 @@ impl TxnSession {
 //@@ ret Result<Result<Accepted, TransactionError>, SessionInnerError>
 //@@ subst `transfer.state = txn_state.outcome.map(Into::into);` => `transfer.state = txn_state.outcome.map(|o: Outcome| -> (d: DeliveryState) ensures d == outcome_to_state(o) { outcome_into_state(o) });` rule=R17
 //@@ subst `disposition.state = txn_state.outcome.map(Into::into)` => `disposition.state = txn_state.outcome.map(|o: Outcome| -> (d: DeliveryState) ensures d == outcome_to_state(o) { outcome_into_state(o) })` rule=R17
-//@@ subst `|_v0| Self::Error::IllegalState` => `|_v0: ChanSendError| SessionInnerError::IllegalState` rule=R5
-//@@ subst `|_v1| Self::Error::IllegalState` => `|_v1: ChanSendError| SessionInnerError::IllegalState` rule=R5
+//@@ subst `|_v0| Self::Error::IllegalState` => `|_v0: ChanSendError| SessionInnerError::IllegalState` rule=optional-R5
+//@@ subst `|_v1| Self::Error::IllegalState` => `|_v1: ChanSendError| SessionInnerError::IllegalState` rule=optional-R5
 //@@ spec
     ensures
         !old(self).txns().contains_key(txn_id) ==> r is Ok && r->Ok_0 == Err::<Accepted, TransactionError>(TransactionError::UnknownId)
